@@ -49,7 +49,16 @@ pub fn classify_location(loc: &[u8]) -> PathClass {
         return PathClass::Disallowed("empty");
     }
     if loc.contains(&b'/') {
-        return PathClass::Disallowed(if loc[0] == b'/' { "absolute" } else { "separator" });
+        if loc[0] == b'/' {
+            return PathClass::Disallowed("absolute");
+        }
+        // "name/", "name/.", "name//./": a name followed only by separators and
+        // '.' components. Still not a plain file name, but kept as its own class
+        // so that it cannot be confused with a path into a sub-directory.
+        let mut parts = loc.split(|c| *c == b'/');
+        let first = parts.next().unwrap_or(b"");
+        let trailing_only = first != b"." && first != b".." && parts.all(|p| p.is_empty() || p == b".");
+        return PathClass::Disallowed(if trailing_only { "trailing-separator" } else { "separator" });
     }
     if loc == b"." || loc == b".." {
         return PathClass::Disallowed("dot-component");
